@@ -9,15 +9,15 @@ INFO = {
     'explanation': (
         'Symbolic execution of the real rate / predict_win / predict_draw / predict_rank (sx engine, mode R) in which every arithmetic '
         'exception CPython could raise is a guarded path outcome: division by zero, square root of a negative, exp() overflow (argument above '
-        '709.78), overflow of float ** int, inverse-CDF domain error. Cancellation is modelled: a divisor computed as A - B with A, B >= 0 counts as zero as soon as |A - B| <= 2^-54 (A + B). Float underflow to zero is modelled too: exp, Phi and phi are only known to be positive above their underflow thresholds (-745, -38.4, |x| < 38.5), so a division by one of them needs either a proved bound on its argument or a guard on the computed value in the path condition. Over the exact domain of the property (mu in [-20b, 20b], sigma in '
+        '709.78), overflow of float ** int, inverse-CDF domain error. Cancellation is modelled: a divisor computed as A - B with A, B >= 0 counts as zero as soon as |A - B| <= 2^-54 (A + B). Float underflow to zero is modelled too: exp, Phi and phi are only known to be positive above their underflow thresholds (-745, -38.4, |x| < 38.5) and only weakly monotone (two arguments an ulp apart or beyond saturation give the same double), so a division by one of them needs either a proved bound on its argument or a guard on the computed value in the path condition. Over the exact domain of the property (mu in [-20b, 20b], sigma in '
         '[1e-4 b, 10 b] or sigma = 0 with tau > 0, 0 <= tau <= 10 b, kappa in (0, 1e-2], any beta > 0 - the rescaling is a symbolic beta) z3 must '
         'refute the bad side of every guard, first on the cone of influence of its operands with their proved range lemmas, then on the full path. '
         'A guard that cannot be refuted is an open obligation: its model is replayed on the real float code, which must raise or return a '
         'non-finite number to count as a violation. No path may end in any other exception either. Phi^-1((1+1/N)/2) is evaluated by the library '
         'for each concrete N in the run.'),
     'bounds': {
-        'quick': 'five models; rate: shapes (1,1),(2,1),(1,1,1),(2,2),(3,1) x {strict, tie, mixed} outcomes; PL/BT also (8,8), (16,16), six and eight single-player teams, (2,1,2,1); rate with tau given per call on a tau = 0 model (sigma = 0 allowed); predictions: (1,1),(2,1),(1,1,1),(2,2,2),(1,1,1,1),(8,8)',
-        'thorough': '+ (16,16) ties, TM (16,16), 8 single-player teams (guard obligations only), TM (2,2) ties',
+        'quick': 'five models; rate: shapes (1,1),(2,1),(1,1,1),(2,2),(3,1) x {strict, tie, mixed} outcomes (TM: ties on (1,1),(2,1),(2,2)); PL/BT also (8,8), (16,16), six and eight single-player teams, (2,1,2,1); rate with tau given per call on a tau = 0 model (sigma = 0 allowed); predictions: (1,1),(2,1),(1,1,1),(2,2,2),(1,1,1,1),(8,8)',
+        'thorough': '+ (16,16) ties, TM (16,16), 8 single-player teams (guard obligations only)',
     },
     'outside': ['overflow of float ** int is a guarded outcome where the base depends on an exp() result (for beta in [4.2e-3, 4.2e3], the six orders of magnitude of the property); other overflow / underflow of + - * / ** (magnitudes argued: |mu| <= 20*16*beta, c >= sqrt(2)*beta, so every intermediate is within (20*16)^2 of beta^2 scale)',
                 'the float-side guards of v/w/vt/wt compare COMPUTED values with machine epsilon, so the divisions they protect are safe in floats by construction (noted, not solved)',
@@ -42,13 +42,13 @@ def jobs(tier):
                       ((8, 8), (0, 1)), ((8, 8), (0, 0)), ((1,) * 6, (0, 1, 2, 3, 4, 5)), ((1,) * 8, (7, 6, 5, 4, 3, 2, 1, 0)),
                       ((1,) * 8, (0, 0, 1, 1, 2, 2, 3, 3)), ((2, 1, 2, 1), (1, 0, 2, 2)), ((16, 16), (1, 0))]
         else:
-            cells += [((2, 2), (0, 1)), ((8, 8), (0, 1))]
+            cells += [((2, 2), (0, 1)), ((2, 2), (0, 0)), ((8, 8), (0, 1))]
         if tier == 'thorough':
             cells += [((16, 16), (1, 0))] if tm else []
             if not tm:
                 cells += [((16, 16), (0, 0)), ((1,) * 8, tuple(range(8))), ((1,) * 8, (0, 0, 1, 1, 2, 2, 3, 3))]
             else:
-                cells += [((2, 2), (0, 0)), ((1, 1, 1), (0, 1, 2))]
+                cells += [((1, 1, 1), (0, 1, 2))]
         for shape, ranks in cells:
             big = sum(shape) > 6
             add(key, 'rate', shape, ranks, budget=(1200 if big or tm else 600) if tier == 'quick' else 3000, cost=(300 if big else 100) if tm else (100 if big else 10))
